@@ -518,11 +518,84 @@ def gen_program(rnd, ndecl):
     return "\n".join(decls) + "\n"
 
 
+def lib_contract(name, c, ncases):
+    cases = " ".join("access(all) case c%d" % k for k in range(ncases))
+    return ("access(all) contract %s {\n  access(all) enum E: UInt8 { %s }\n  access(all) let k: Int\n"
+            "  access(all) view fun f(_ x: Int): Int { return x + %d }\n  access(all) struct P { access(all) let v: Int; init() { self.v = %d } }\n"
+            "  init() { self.k = %d }\n}\n" % (name, cases, c % 7 + 1, c, c))
+
+
+def gen_bundle(rnd, i):
+    """programs that import each other: library contracts with enums / globals, a contract interface that imports them in
+    SEPARATE import declarations and has conditions using them, a contract conforming to it WITHOUT importing the libraries
+    (the compiler has to add the transitive imports), optionally a second interface level and a user of the contract."""
+    nlib = rnd.choice([2, 3, 3, 4])
+    libs = []
+    for j in range(nlib):
+        libs.append({"name": "L%d" % j, "addr": rnd.choice([1, 2]), "c": rnd.randrange(1, 1000), "n": rnd.randrange(2, 5)})
+    progs = [{"name": l["name"], "addr": l["addr"], "code": lib_contract(l["name"], l["c"], l["n"])} for l in libs]
+    order = libs[:]
+    rnd.shuffle(order)
+    split = rnd.randrange(1, nlib) if rnd.random() < 0.5 else nlib        # how many libraries the first-level interface imports
+    first, second = order[:split], order[split:]
+
+    def imports(ls):
+        return "".join("import %s from 0x%d\n" % (l["name"], l["addr"]) for l in ls)
+
+    def conds(ls):
+        pre = "; ".join("%s.E.c0.rawValue <= %s.E.c1.rawValue" % (l["name"], l["name"]) for l in ls)
+        pre2 = "; ".join("%s.f(x) > 0" % l["name"] for l in ls[:2])
+        post = "; ".join("result >= x - %s.k" % l["name"] for l in ls)
+        return pre + "; " + pre2, post
+
+    pre, post = conds(first)
+    progs.append({"name": "I", "addr": 1, "code": imports(first) +
+                  "access(all) contract interface I {\n  access(all) struct interface SI {\n"
+                  "    access(all) fun check(_ x: Int): Int { pre { %s } post { %s } }\n  }\n"
+                  "  access(all) resource interface RI { access(all) fun use(_ x: Int): Int { pre { %s } } }\n}\n" % (pre, post, pre)})
+    top = "I"
+    if second:
+        pre2, post2 = conds(second)
+        progs.append({"name": "J", "addr": 2, "code": "import I from 0x1\n" + imports(second) +
+                      "access(all) contract interface J {\n  access(all) struct interface SJ: I.SI {\n"
+                      "    access(all) fun check(_ x: Int): Int { pre { %s } post { %s } }\n  }\n}\n" % (pre2, post2)})
+        top = "J"
+    conf = "J.SJ" if top == "J" else "I.SI"
+    progs.append({"name": "D", "addr": 3, "code": ("import I from 0x1\n" + ("import J from 0x2\n" if top == "J" else "")) +
+                  "access(all) contract D {\n  access(all) struct S: %s { access(all) fun check(_ x: Int): Int { return x + %d } }\n"
+                  "  access(all) resource R: I.RI { access(all) fun use(_ x: Int): Int { return x } }\n"
+                  "  access(all) fun run(): Int { let r <- create R(); let v = r.use(1) + S().check(2); destroy r; return v }\n}\n" % (conf, i)})
+    progs.append({"name": "U", "addr": 4, "code": "import D from 0x3\naccess(all) contract U { access(all) fun go(): Int { return D.run() + D.S().check(%d) } }\n" % i})
+    return {"id": "bundle-%d" % i, "programs": progs}
+
+
+BUNDLES_FIXED = [
+    # same-named contracts at different addresses, reached through two interfaces
+    {"id": "bundle-same-name", "programs": [
+        {"name": "A", "addr": 1, "code": "access(all) contract A { access(all) enum Color: UInt8 { access(all) case red; access(all) case green } }\n"},
+        {"name": "A", "addr": 2, "code": "access(all) contract A { access(all) enum Color: UInt8 { access(all) case blue; access(all) case black; access(all) case white } }\n"},
+        {"name": "I", "addr": 1, "code": "import A from 0x1\naccess(all) contract interface I { access(all) struct interface SI { access(all) fun check(): Int { pre { A.Color.red.rawValue < A.Color.green.rawValue } } } }\n"},
+        {"name": "J", "addr": 2, "code": "import A from 0x2\naccess(all) contract interface J { access(all) struct interface SJ { access(all) fun other(): Int { post { A.Color.white.rawValue > A.Color.blue.rawValue } } } }\n"},
+        {"name": "D", "addr": 3, "code": "import I from 0x1\nimport J from 0x2\naccess(all) contract D { access(all) struct S: I.SI, J.SJ { access(all) fun check(): Int { return 1 } access(all) fun other(): Int { return 2 } } }\n"},
+    ]},
+    # the minimal shape: two enums, one interface with two import declarations, one conforming contract
+    {"id": "bundle-two-enums", "programs": [
+        {"name": "A", "addr": 1, "code": "access(all) contract A { access(all) enum Color: UInt8 { access(all) case red; access(all) case green } }\n"},
+        {"name": "B", "addr": 1, "code": "access(all) contract B { access(all) enum Size: UInt8 { access(all) case small; access(all) case big } }\n"},
+        {"name": "I", "addr": 1, "code": "import A from 0x1\nimport B from 0x1\naccess(all) contract interface I { access(all) struct interface SI { access(all) fun check(): Int { pre { A.Color.red.rawValue < B.Size.big.rawValue } } } }\n"},
+        {"name": "D", "addr": 1, "code": "import I from 0x1\naccess(all) contract D { access(all) struct S: I.SI { access(all) fun check(): Int { return 1 } } }\n"},
+    ]},
+]
+
+
 def compile_corpus(seed, quick):
     rnd = random.Random(1000003 * seed + 35)
     corpus = [{"id": "fixed-" + n, "code": c} for n, c in CORPUS_FIXED]
     for i in range(30 if quick else 250):
         corpus.append({"id": "gen-%d" % i, "code": gen_program(rnd, rnd.choice([5, 12, 25, 40]))})
+    corpus += BUNDLES_FIXED
+    for i in range(10 if quick else 60):
+        corpus.append(gen_bundle(rnd, i))
     return corpus
 
 
@@ -564,12 +637,20 @@ def check_C35(ctx):
     trace = []
     procs = [{"GOMAXPROCS": "1"}, {"GOMAXPROCS": "4"}, {"GOMAXPROCS": "16", "GOGC": "20"}] + ([] if ctx.quick else [{"GOMAXPROCS": "2", "GOGC": "off"}, {}])
     rounds = 3 if ctx.quick else 5
+    brounds = 60 if ctx.quick else 150               # bundle members: compiled this often by fresh compilers in each process
+    compilations = 0
     csum = None
     for pi, env in enumerate(procs):
-        csum, crows = run_driver(ctx, binary, "compile", [corpf, str(rounds)], "compile-%d" % pi, env=env)
+        csum, crows = run_driver(ctx, binary, "compile", [corpf, str(rounds), str(brounds)], "compile-%d" % pi, env=env)
         for r in crows:
+            seen = {}                                   # equal outcomes of one process are merged into one event with a count
             for k, d in enumerate(r["digests"]):
-                trace.append({"prog": r["id"], "digest": d, "parts": r["parts"][k], "proc": "p%d-%d" % (pi, r["pid"]), "round": k})
+                compilations += 1
+                if d in seen:
+                    seen[d]["count"] += 1
+                else:
+                    seen[d] = {"prog": r["id"], "digest": d, "parts": r["parts"][k], "proc": "p%d-%d" % (pi, r["pid"]), "round": k, "count": 1}
+                    trace.append(seen[d])
     if os.environ.get("VERIF_NEGCTL_C35"):                    # manual negative control: corrupt one event
         trace[len(trace) // 2]["digest"] = "0" * 64
     tf = os.path.join(ctx.work, "trace.ndjson")
@@ -585,7 +666,7 @@ def check_C35(ctx):
         ctx.report({"part": "compile-determinism", "differs": ",".join(diff)},
                    "program %s: compilation in %s round %d gives digest %s, first compilation %s (differs in: %s)"
                    % (e["prog"], e["proc"], e["round"], e["digest"][:16], first["digest"][:16], ",".join(diff)),
-                   {"program": next(c["code"] for c in corpus if c["id"] == e["prog"]), "event": e, "first": first})
+                   {"program": next((c.get("code") or c.get("programs")) for c in corpus if c["id"] == e["prog"].split("/")[0]), "event": e, "first": first})
     # built-in negative control of the relation: one corrupted event must be in Bad
     ctrace = json.loads(json.dumps(trace)); ctrace[len(ctrace) // 2]["digest"] = "f" * 64
     write_ndjson(tf, ctrace)
@@ -594,12 +675,13 @@ def check_C35(ctx):
     if not vc or (len(ctrace) // 2 + 1) not in vc[0]["bad"]:
         raise Infra("negative control failed: corrupted digest event not rejected by Digest.tla")
     ctx.add_sample({"leb128 row": brow})
-    ctx.add_sample({"program": corpus[len(CORPUS_FIXED)]["code"][:400], "digest": trace[len(CORPUS_FIXED) * rounds]["digest"]})
+    ctx.add_sample({"program": corpus[len(CORPUS_FIXED)]["code"][:400], "digest event": next(e for e in trace if e["prog"] == corpus[len(CORPUS_FIXED)]["id"])})
+    ctx.add_sample({"bundle": BUNDLES_FIXED[1]["programs"]})
     ctx.add_sample({"fixed program": CORPUS_FIXED[3][1][:300]})
     return ctx.finish({
         "states": rn.distinct + rb.distinct, "transitions": rn.generated + rb.generated - 2,
-        "traces_validated_against_impl": ls["values"] + len(trace),
-        "evaluations": ls["evaluations"] + ls["sweep_evaluations"] + isum["corpus_instructions"] + isum["generated_instructions"] + len(trace),
+        "traces_validated_against_impl": ls["values"] + compilations,
+        "evaluations": ls["evaluations"] + ls["sweep_evaluations"] + isum["corpus_instructions"] + isum["generated_instructions"] + compilations,
         "leb128_values_in_table": ls["values"], "leb128_table_evaluations": ls["evaluations"], "leb128_sweep_evaluations": ls["sweep_evaluations"],
         "distinct_nontrivial": ls["nontrivial"] + isum["distinct_instructions"],
         "rule": "LEB128: table values whose encoding has more than one byte (continuation logic exercised), each a distinct value; "
@@ -608,14 +690,17 @@ def check_C35(ctx):
         "leb128_values_checked_on_model": (rn.distinct - 1 - (rn.distinct - 1 + 32) // 33) * 256 * 3,
         "instructions_from_corpus": isum["corpus_instructions"], "instructions_generated": isum["generated_instructions"],
         "opcodes_covered": isum["opcodes"], "decodable_opcodes": isum["decodable_opcodes"],
-        "programs": len(corpus), "compilations": len(trace), "processes": len(procs), "rounds_per_process": rounds,
+        "programs": csum["programs"], "bundles_of_importing_programs": sum(1 for c in corpus if "programs" in c),
+        "compilations": compilations, "digest_events": len(trace), "processes": len(procs), "rounds_per_process": rounds,
+        "bundle_rounds_per_process": brounds,
         "functions_compiled": csum["functions"], "instructions_compiled": csum["instructions"],
         "negative_control": "2 corrupted LEB128 rows rejected by the driver; 1 corrupted digest event rejected by Digest.tla",
         "exhaustive": True,
     }, assumptions=["TLA+ decides the LEB128 part (laws on the model + byte-exact table) and the functional relation on the digest trace; the instruction "
                     "codec round trip and the choice of corpus programs are exploration: there is no independent model of the instruction set or the compiler",
                     "compile determinism is observed over the listed processes/rounds only; the corpus is hand-written programs plus seeded generated "
-                    "programs with up to 40 shuffled top-level declarations"])
+                    "programs with up to 40 shuffled top-level declarations, plus bundles of contracts that import each other (libraries with enums/globals, "
+                    "contract interfaces with conditions and 1-4 separate import declarations, conforming contracts that rely on transitive imports, same-named contracts at different addresses)"])
 
 
 # ------------------------------------------------------------------------------------------
@@ -968,7 +1053,7 @@ META = {
                       "agreement of the two formulations; on 2^k+d (k <= 64, |d| <= 2, both signs) and seeded random 64-bit values the big-number laws. "
                       "TLC prints the expected bytes; bbq/leb128 Append*/Read* (32 and 64 bit) must reproduce bytes, value and length. Exploration part: "
                       "every instruction of the compiled corpus and generated instructions of every opcode with operands at width boundaries "
-                      "round-trip through Encode/DecodeInstruction; each corpus program is compiled repeatedly in several fresh processes and "
+                      "round-trip through Encode/DecodeInstruction; each corpus program (single programs and bundles of contracts importing each other) is compiled repeatedly in several fresh processes, bundle members 60+ times per process, and "
                       "Digest.tla checks that the digest (code, constants, function order, types, globals) is a function of the program.",
         "level_note": "Model checking applies to LEB128 only. The instruction codec and compile determinism have no independent model: they are "
                       "relational exploration (round trip, functional digest) over a corpus; a non-determinism that needs a program shape outside the "
